@@ -41,7 +41,7 @@ def reader(prog, rep, tag):
         # every write goes into (a suffix of) the clamped slice
         cps = [c for c in b.calls() if (c.decl_s or "").endswith("copy_from_slice")]
         pw = Prov(b, transparent=TRANSPARENT | {"slice::split_at_mut"})
-        d["writes-into-clamped"] = len(cps) == 2 and all(has_root(pw.of_operand(c.args[0]), "arg", 2) or any(x[0] == "upvar" and x[2] == "buf" for x in pw.of_operand(c.args[0])) for c in cps)
+        d["writes-into-clamped"] = len(cps) >= 1 and all(has_root(pw.of_operand(c.args[0]), "arg", 2) or any(x[0] == "upvar" and x[2] == "buf" for x in pw.of_operand(c.args[0])) for c in cps)
         # the loop variable buf is re-assigned only from the clamped slice and its split tails
         d["reads-at-word"] = len(rc) == 1 and has_root(Prov(b).of_operand(rc[0].args[1]), "call", "EepromRange::word_pos")
         ok = all(d.values())
